@@ -241,7 +241,7 @@ def fr_lit(d):
 
 TRIVIAL = ('{| k_aa := false; k_frags := []; k_poly := []; k_fragreact := []; k_term := []; k_user_masses := None; '
            'k_target := (0x0p+0)%float; k_start := None; k_init := None; k_picks0 := []; k_steps := []; k_obs := []; '
-           'k_added := []; k_det := []; k_exact := []; k_out := OExc (S "skip") 0 |}')
+           'k_added := []; k_det := []; k_exact := []; k_out := OExc (S "OSError") 0 |}')   # consistent: model and oracle agree
 
 
 def case_lit(case, impl, det=()):
@@ -398,10 +398,22 @@ def rand_case(rng, mode=None):
     else:
         ctor = rng.choice(['explicit', 'explicit', 'explicit', 'fromstr_explicit'])
     return {'frags': frags, 'aa': aa, 'poly': poly, 'fragreact': fragreact, 'term': term, 'masses': masses,
-            'seed': rng.randint(0, 10 ** 6), 'target': target, 'start': start, 'ctor': ctor}
+            # the valid seed 0 (falsy!) and other small seeds are part of the domain
+            'seed': rng.choice([0, 0, 0, 1, 2, 3, 7]) if rng.random() < 0.25 else rng.randint(0, 10 ** 6),
+            'target': target, 'start': start, 'ctor': ctor}
 
 
 CORPUS = [
+    # seed 0 is a valid seed: two constructions with it must give the same molecule
+    {'frags': '{#A=[$]CC[$],#B=[$]CO[$],#D=[$]N[$]}', 'aa': True, 'poly': {}, 'fragreact': {}, 'term': [], 'masses': None,
+     'seed': 0, 'target': 250, 'start': None, 'ctor': 'explicit'},
+    {'frags': '{#A=[>][#X][<],#B=[>][#Y][$][<],#D=[$][#Z][$]}', 'aa': False, 'poly': {'>': 1, '<': 2, '$': 1}, 'fragreact': {},
+     'term': [], 'masses': {'A': 10, 'B': 12, 'D': 7}, 'seed': 0, 'target': 80, 'start': None, 'ctor': 'explicit'},
+    # '$' descriptors of two bond orders, two distinct wrong-order strings consecutive in the descriptor index
+    {'frags': '{#A=[$]CC[$],#B=[$a]=CC=[$b]}', 'aa': True, 'poly': {}, 'fragreact': {}, 'term': [], 'masses': None,
+     'seed': 3, 'target': 160, 'start': 'A', 'ctor': 'explicit'},
+    {'frags': '{#A=[$x]=[#P]=[$y],#B=[$][#Q][$],#D=[$z]=[#R]}', 'aa': False, 'poly': {}, 'fragreact': {}, 'term': [],
+     'masses': {'A': 10, 'B': 10, 'D': 10}, 'seed': 4, 'target': 60, 'start': 'B', 'ctor': 'explicit'},
     # all_atom left to its documented default (True) while fragment_masses are supplied
     {'frags': '{#A=[$]CC[$],#B=[$]CO}', 'aa': True, 'poly': {}, 'fragreact': {}, 'term': [], 'masses': {'A': 28, 'B': 31},
      'seed': 5, 'target': 100, 'start': 'A', 'ctor': 'default'},
